@@ -13,7 +13,7 @@ Property theorems only (helper lemmas: `Proofs/Hull*.lean`, `Proofs/C16Sort.lean
 The model (`Model/Hull.lean`) is `tweakwcs.wcsimage.convex_hull` line by line:
 `sortDedupe` = `sorted(set(zip(x, y)))`, two `chain` passes with `cross <= 0` pops,
 `hullRaw` = `lower[:-1] + upper` (with the 0- and 1-point returns), `mergeSep` = the
-`min_separation` loop, `convexHull` = the whole function (`wcs=None`), and `smallBox1`,
+`min_separation` loop (the repaired backward greedy pass followed by the pass against the first vertex), `convexHull` = the whole function (`wcs=None`), and `smallBox1`,
 `smallBox2`, `refFootprint` = the small-catalog branches of `RefCatalog._calc_cat_convex_hull`.
 `K` is any linearly ordered field (real arithmetic; rounding is outside the model); the box
 theorems that need the square root are over `ℝ`.
@@ -23,7 +23,8 @@ Vocabulary: `lexlt` Python's tuple order; `AllLeft q h` — `q` is on or to the 
 `closeUp h = h ++ [h[1]]`, so that for a closed list (`h[0] = h[-1]`) the triples of `closeUp h`
 are **all** cyclically consecutive triples, the one centred at the closing vertex and the two
 junctions of the lower and upper chains included; `Collinear pts` — every triple of input points
-has zero cross product.  Spherical polygons (`spherical_geometry`) are not modelled.
+has zero cross product; `FarApart s a b` — `¬ (|a.1 - b.1| ≤ s ∧ |a.2 - b.2| ≤ s)`; `Separated s h` —
+every two consecutive vertices of `h` are `FarApart s`.  Spherical polygons (`spherical_geometry`) are not modelled.
 -/
 open TW
 set_option linter.unusedSectionVars false
@@ -61,7 +62,7 @@ theorem convexHull_stages (sep : Option K) (pts h : List (Pt K)) :
         intro r hr
         split at hr
         · next e => rw [e, ← hr]; rfl
-        · next p e => rw [e, ← hr]; simp [mergeSep, mergeTail_nil]
+        · next p e => rw [e, ← hr, mergeSep_cons, greedyKeep_nil, dropClose_nil]
         · exact hr.symm
       constructor
       · intro e
@@ -306,32 +307,73 @@ theorem hull_nodup (pts : List (Pt K)) : (hullRaw pts).dropLast.Nodup := by
 
 /-! ### the `min_separation` loop -/
 
-/-- what the loop does to a vertex list `v0 :: rest`: the first vertex is never visited; behind
-it a vertex is removed exactly when both of its coordinates are within `s` of its successor in
-the **original** list; the last (closing) vertex is never removed.  Hence the result is a
-sublist with the same first and last entries. -/
-theorem merge_spec (s : K) (v0 : Pt K) (rest : List (Pt K)) :
-    mergeSep s (v0 :: rest) =
-      v0 :: (((rest.zip rest.tail).filter (fun e => !closeTo s e.1 e.2)).map Prod.fst ++
-              rest.getLast?.toList) ∧
-    (mergeSep s (v0 :: rest)).Sublist (v0 :: rest) ∧
-    (mergeSep s (v0 :: rest)).head? = some v0 ∧
-    (mergeSep s (v0 :: rest)).getLast? = (v0 :: rest).getLast? ∧
-    (∀ a b : Pt K, closeTo s a b = true ↔ |a.1 - b.1| ≤ s ∧ |a.2 - b.2| ≤ s) := by
-  refine ⟨?_, mergeSep_sublist s _, rfl, mergeSep_getLast s _, closeTo_iff s⟩
-  show v0 :: mergeTail s rest = _
-  rw [mergeTail_eq]
+/-- the result of the loop is a sublist of the raw hull (any `s`, any list) -/
+theorem merge_sublist (s : K) (h : List (Pt K)) : (mergeSep s h).Sublist h :=
+  mergeSep_sublist s h
 
-/-- if no vertex behind the first is within `s` of its successor the loop returns its input -/
-theorem merge_id (s : K) (v0 : Pt K) (rest : List (Pt K))
-    (h : ∀ e ∈ rest.zip rest.tail, ¬ (|e.1.1 - e.2.1| ≤ s ∧ |e.1.2 - e.2.2| ≤ s)) :
-    mergeSep s (v0 :: rest) = v0 :: rest := by
-  show v0 :: mergeTail s rest = _
-  rw [mergeTail_id]
-  intro e he
-  cases hc : closeTo s e.1 e.2 with
-  | false => rfl
-  | true => exact absurd ((closeTo_iff s _ _).mp hc) (h e he)
+/-- the first vertex and the closing vertex of the raw hull are never removed -/
+theorem merge_ends (s : K) (h : List (Pt K)) :
+    (mergeSep s h).head? = h.head? ∧ (mergeSep s h).getLast? = h.getLast? :=
+  ⟨mergeSep_head s h, mergeSep_getLast s h⟩
+
+/-- **consecutive vertices closer than the separation are merged.**  In the result of the loop on
+`v0 :: rest` every two consecutive vertices — the pairs (first vertex, next vertex) and (last
+interior vertex, closing vertex) included — are farther apart than `s` in at least one
+coordinate (`Separated`: `¬ (|Δx| ≤ s ∧ |Δy| ≤ s)` for every consecutive pair), unless the result is
+the degenerate `[v0, closing vertex]` (everything in between was merged away; for a hull that is
+`[v0, v0]`).  (`rest = []` is never reached: the loop runs on at least three entries.) -/
+theorem merge_separated (s : K) (v0 : Pt K) (rest : List (Pt K)) (hr : rest ≠ []) :
+    (∃ l, rest.getLast? = some l ∧ mergeSep s (v0 :: rest) = [v0, l]) ∨
+      Separated s (mergeSep s (v0 :: rest)) := by
+  rcases mergeSep_separated s v0 rest with ⟨l, hl⟩ | h1 | hs
+  · left
+    refine ⟨l, ?_, hl⟩
+    have := mergeSep_getLast s (v0 :: rest)
+    rw [hl] at this
+    cases rest with
+    | nil => exact absurd rfl hr
+    | cons b r => rw [List.getLast?_cons_cons] at this; simpa using this.symm
+  · exfalso
+    have := mergeSep_getLast s (v0 :: rest)
+    rw [h1] at this
+    cases rest with
+    | nil => exact absurd rfl hr
+    | cons b r =>
+      -- the result would have one entry although the closing vertex is kept behind the first
+      have hne : dropClose s v0 (greedyKeep s (b :: r)) ≠ [] :=
+        (dropClose_spec s v0 _).2.1 (greedyKeep_ne s _ (by simp))
+      rw [mergeSep_cons] at h1
+      injection h1 with _ h1
+      exact hne h1
+  · exact Or.inr hs
+
+/-- nothing changes when no two consecutive vertices of the (closed) raw hull are within `s` -/
+theorem merge_id (s : K) (v0 : Pt K) (rest : List (Pt K)) (h : Separated s (v0 :: rest)) :
+    mergeSep s (v0 :: rest) = v0 :: rest :=
+  mergeSep_id s v0 rest h
+
+/-- every vertex of the raw hull is kept, or lies within `s` (both coordinates) of a kept vertex, or
+— when the vertex it was merged into was afterwards merged into the first vertex — within `2 s` of
+the first vertex (which is kept).
+
+The sharper statement "every dropped vertex is within `s` of a kept vertex" is **false** for this
+loop; see the `example` below (`[(0,0),(8/5,-3/5),(1,3/10),(1/10,3/2)]`, `s = 1`). -/
+theorem merge_dropped_close (s : K) (v0 : Pt K) (rest : List (Pt K)) : ∀ x ∈ v0 :: rest,
+    x ∈ mergeSep s (v0 :: rest) ∨
+    (∃ y ∈ mergeSep s (v0 :: rest), |x.1 - y.1| ≤ s ∧ |x.2 - y.2| ≤ s) ∨
+    (|x.1 - v0.1| ≤ 2 * s ∧ |x.2 - v0.2| ≤ 2 * s) := by
+  intro x hx
+  rcases mergeSep_covers s v0 rest x hx with h | ⟨y, hy, hc⟩ | ⟨j, h1, h2⟩
+  · exact Or.inl h
+  · exact Or.inr (Or.inl ⟨y, hy, (closeTo_iff s x y).mp hc⟩)
+  · right; right
+    have a1 := (closeTo_iff s x j).mp h1
+    have a2 := (closeTo_iff s j v0).mp h2
+    constructor
+    · calc |x.1 - v0.1| ≤ |x.1 - j.1| + |j.1 - v0.1| := abs_sub_le _ _ _
+        _ ≤ 2 * s := by linarith [a1.1, a2.1]
+    · calc |x.2 - v0.2| ≤ |x.2 - j.2| + |j.2 - v0.2| := abs_sub_le _ _ _
+        _ ≤ 2 * s := by linarith [a1.2, a2.2]
 
 /-! ### the executable convexity check evaluated by the driver on every correspondence case -/
 
@@ -371,14 +413,28 @@ example : hullRaw ([(0,0),(2,2),(1,1),(3,3)] : List (Pt ℚ)) = [(0,0),(3,3),(0,
 example : hullRaw ([] : List (Pt ℚ)) = [] := by decide +kernel
 example : hullRaw ([(5,7),(5,7),(5,7)] : List (Pt ℚ)) = [(5,7)] := by decide +kernel
 example : hullRaw ([(5,7),(1,2),(5,7)] : List (Pt ℚ)) = [(1,2),(5,7),(1,2)] := by decide +kernel
--- `merge_spec`: `(4,0)` is within 1/2 of its successor `(17/4,1/4)` and is the one removed
+-- the loop: `(4,0)` is within 1/2 of its successor `(17/4,1/4)`; the EARLIER one is removed
 example : convexHull none ([(0,0),(4,0),(17/4,1/4),(4,4),(0,4)] : List (Pt ℚ)) =
     .ok [(0,0),(4,0),(17/4,1/4),(4,4),(0,4),(0,0)] := by decide +kernel
 example : convexHull (some (1/2)) ([(0,0),(4,0),(17/4,1/4),(4,4),(0,4)] : List (Pt ℚ)) =
     .ok [(0,0),(17/4,1/4),(4,4),(0,4),(0,0)] := by decide +kernel
--- `merge_spec`: the closing vertex survives even when its predecessor is dropped; a whole run of
--- close vertices is dropped (each is tested against its *original* successor)
+-- the three witnesses of the repaired finding F17:
+-- (a) vertex 1 within the separation of vertex 0 is now removed
+example : convexHull (some (1/10)) ([(0,0),(1/100,-1/200),(10,5),(0,5)] : List (Pt ℚ)) =
+    .ok [(0,0),(10,5),(0,5),(0,0)] := by decide +kernel
+-- (b) a vertex is compared with the next KEPT vertex: `(0,0)` is within 1 of `(19/20,1)`
+example : convexHull (some 1) ([(-10,1/2),(0,0),(21/20,3/10),(19/20,1)] : List (Pt ℚ)) =
+    .ok [(-10,1/2),(19/20,1),(-10,1/2)] := by decide +kernel
+-- (c) everything within the separation of the first vertex: the degenerate `[v0, v0]` of `merge_separated`
 example : convexHull (some 1) ([(0,0),(1,0),(0,1)] : List (Pt ℚ)) = .ok [(0,0),(0,0)] := by decide +kernel
+-- `merge_dropped_close` cannot be sharpened: `(8/5,-3/5)` is merged into `(1,3/10)`, which is then merged
+-- into the first vertex; it is within 1 of neither kept vertex `(0,0)`, `(1/10,3/2)` (but within 2 of `(0,0)`)
+example : convexHull (some 1) ([(0,0),(8/5,-3/5),(1,3/10),(1/10,3/2)] : List (Pt ℚ)) =
+    .ok [(0,0),(1/10,3/2),(0,0)] := by decide +kernel
+example : hullRaw ([(0,0),(8/5,-3/5),(1,3/10),(1/10,3/2)] : List (Pt ℚ)) =
+    [(0,0),(8/5,-3/5),(1,3/10),(1/10,3/2),(0,0)] := by decide +kernel
+example : closeTo (1 : ℚ) (8/5,-3/5) (0,0) = false ∧ closeTo (1 : ℚ) (8/5,-3/5) (1/10,3/2) = false := by
+  decide +kernel
 -- `merge_id`: separation 0 never removes anything from a hull (consecutive vertices differ)
 example : convexHull (some 0) demo = .ok [(0,0),(2,0),(2,2),(0,2),(0,0)] := by decide +kernel
 -- `hull_neg_separation`
